@@ -381,3 +381,33 @@ pub fn to_in_vals(v: &[f64]) -> Vec<In> {
 pub fn to_in_candles(v: &[[f64; 5]]) -> Vec<In> {
 	v.iter().map(|c| In::c(c[0], c[1], c[2], c[3], c[4])).collect()
 }
+
+/// a long one-sided stream: geometric drift with a small periodic ripple (local peaks and troughs every few bars, no
+/// change of the overall direction) - the regime that advances consecutive-bar / same-side counters for thousands of steps
+pub fn trend_ripple(r: &mut Rng, len: usize) -> Vec<[f64; 5]> {
+	let up = r.chance(0.5);
+	let g = 10f64.powf(-(2.5 + r.unit() * 2.5)) * if up { 1.0 } else { -1.0 };
+	let period = 3 + r.usize_below(5);
+	let a = g.abs() * period as f64 * (0.0 + r.unit() * 3.0) * if r.chance(0.25) { 0.0 } else { 1.0 };
+	let p0 = 50.0 + r.unit() * 100.0;
+	let vol = 10f64.powi(r.range(0, 5) as i32);
+	let mut out = Vec::with_capacity(len);
+	let mut base = p0;
+	let mut prev = p0;
+	for t in 0..len {
+		base *= 1.0 + g;
+		if !(base > 1e-12 && base < 1e12) {
+			base = p0;
+		}
+		let ph = (t % period) as f64 / period as f64;
+		let tri = 1.0 - (2.0 * ph - 1.0).abs();
+		let close = base * (1.0 + a * tri);
+		let open = prev;
+		let hi = open.max(close) * (1.0 + g.abs() * 0.1);
+		let lo = open.min(close) * (1.0 - g.abs() * 0.1);
+		prev = close;
+		let (o, h, l, c) = (vt(open), vt(hi), vt(lo), vt(close));
+		out.push([o, h.max(o).max(c), l.min(o).min(c), c, vt(vol * (0.5 + r.unit()))]);
+	}
+	out
+}
